@@ -42,14 +42,36 @@ Definition parse2 (s : bytes) : option (bytes * Z) :=
               match atoi v with Some z => Some (k, z) | None => None end
   end.
 
+(* Splitter{S, Delim} for an arbitrary delimiter (the table's --delim): Next() cuts at the FIRST
+   occurrence of the WHOLE delimiter (strings.Index) and advances by its length.
+   [is_pre d s] = Some rest iff s = d ++ rest.  (Empty delimiter: Index = 0, the cursor never moves and
+   is never done — cutd [] s = ([], Some s), as the code.)  Proofs/AggSplit.v: specification of cutd,
+   and cutd [b] = cut b. *)
+Fixpoint is_pre (d s : bytes) : option bytes :=
+  match d, s with
+  | [], _ => Some s
+  | x :: d', y :: s' => if N.eqb x y then is_pre d' s' else None
+  | _ :: _, [] => None
+  end.
+Fixpoint cutd (d s : bytes) {struct s} : bytes * option bytes :=
+  match s with
+  | [] => match d with [] => ([], Some []) | _ :: _ => ([], None) end
+  | b :: r => match is_pre d s with
+              | Some rest => ([], Some rest)
+              | None => let '(p, q) := cutd d r in (b :: p, q)
+              end
+  end.
+Definition spd_next (d : bytes) (st : option bytes) : bytes * option bytes :=
+  match st with None => ([], None) | Some s => cutd d s end.
+
 (* countersubkey.go / table.go Sample: a [d b [d increment]]; None = parse error.
-   (sub-key counter: a = key, b = sub-key; table: a = column, b = row) *)
-Definition parse3 (d : N) (s : bytes) : option (bytes * bytes * Z) :=
-  let '(a, st1) := cut d s in
-  let '(b, st2) := sp_next d st1 in
+   (sub-key counter: a = key, b = sub-key, d = NUL; table: a = column, b = row, d = its delimiter) *)
+Definition parse3 (d : bytes) (s : bytes) : option (bytes * bytes * Z) :=
+  let '(a, st1) := cutd d s in
+  let '(b, st2) := spd_next d st1 in
   match st2 with
   | None => Some (a, b, 1)
-  | Some r => let '(v, _) := cut d r in
+  | Some r => let '(v, _) := cutd d r in
               match atoi v with Some z => Some (a, b, z) | None => None end
   end.
 
@@ -172,16 +194,16 @@ Definition s_sample_value (s : subkey) (k sk : bytes) (v : Z) : subkey :=
   end.
 
 Definition s_sample (s : subkey) (e : bytes) : subkey :=
-  match parse3 0%N e with
+  match parse3 [0%N] e with
   | Some (k, sk, v) => s_sample_value s k sk v
   | None => mkS (s_matches s) (s_keys s) (s_idx s) (s_errors s + 1)
   end.
 Definition s_run (h : list bytes) : subkey := fold_left s_sample h s0.
 
 (* specification *)
-Definition valid3 (d : N) (h : list bytes) : list (bytes * bytes * Z) :=
+Definition valid3 (d : bytes) (h : list bytes) : list (bytes * bytes * Z) :=
   flat_map (fun s => match parse3 d s with Some x => [x] | None => [] end) h.
-Definition nerr3 (d : N) (h : list bytes) : N :=
+Definition nerr3 (d : bytes) (h : list bytes) : N :=
   N.of_nat (length (filter (fun s => match parse3 d s with None => true | Some _ => false end) h)).
 Definition sum_a (a : bytes) (v : list (bytes * bytes * Z)) : Z :=
   zsum (map snd (filter (fun p => beq a (fst (fst p))) v)).
@@ -197,11 +219,11 @@ Fixpoint enum_from {A} (i : nat) (l : list A) : list (A * nat) :=
 
 Definition spec_subkeys (v : list (bytes * bytes * Z)) : list bytes := usort (map (fun p => snd (fst p)) v).
 Definition spec_subkey (h : list bytes) : subkey :=
-  let v := valid3 0%N h in
+  let v := valid3 [0%N] h in
   let sks := spec_subkeys v in
   mkS (map (fun k => (k, (wrap64 (sum_a k v), map (fun s => wrap64 (sum_ab k s v)) sks)))
            (usort (map (fun p => fst (fst p)) v)))
-      sks (enum_from O sks) (nerr3 0%N h).
+      sks (enum_from O sks) (nerr3 [0%N] h).
 
 (* ------------------------------------------------------------------ TableAggregator *)
 Definition trow := (amap Z * Z)%type.      (* cells by column, row sum *)
@@ -213,12 +235,12 @@ Definition t_sample_item (t : table) (c r : bytes) (v : Z) : table :=
                         (aupd c (addo v) cells, add64 sm v)) (t_rows t))
       (aupd c (addo v) (t_cols t)) (t_errors t).
 
-Definition t_sample (d : N) (t : table) (e : bytes) : table :=
+Definition t_sample (d : bytes) (t : table) (e : bytes) : table :=
   match parse3 d e with
   | Some (c, r, v) => t_sample_item t c r v
   | None => mkT (t_rows t) (t_cols t) (t_errors t + 1)
   end.
-Definition t_run (d : N) (h : list bytes) : table := fold_left (t_sample d) h t0.
+Definition t_run (d : bytes) (h : list bytes) : table := fold_left (t_sample d) h t0.
 
 Definition t_value (rw : trow) (c : bytes) : Z := dflt (afind c (fst rw)).
 Definition t_coltotal (t : table) (c : bytes) : Z := dflt (afind c (t_cols t)).
@@ -233,7 +255,7 @@ Definition t_minmax (t : table) : Z * Z :=
   ((if mn =? max_int64 then 0 else mn), (if mx =? min_int64 then 0 else mx)).
 
 (* specification *)
-Definition spec_table (d : N) (h : list bytes) : table :=
+Definition spec_table (d : bytes) (h : list bytes) : table :=
   let v := valid3 d h in
   let cols := usort (map (fun p => fst (fst p)) v) in
   let rows := usort (map (fun p => snd (fst p)) v) in
@@ -306,14 +328,14 @@ Definition cs_trim (pred : bytes -> bytes -> Z -> bool) (cs : cellmap) : cellmap
 Inductive top :=
 | TSample (e : bytes)
 | TTrim (pred : bytes -> bytes -> Z -> bool) (order : list bytes).
-Definition t_op (d : N) (t : table) (o : top) : table :=
+Definition t_op (d : bytes) (t : table) (o : top) : table :=
   match o with
   | TSample e => t_sample d t e
   | TTrim pred order => trimf_order pred order t
   end.
-Definition t_ops (d : N) (ops : list top) : table := fold_left (t_op d) ops t0.
+Definition t_ops (d : bytes) (ops : list top) : table := fold_left (t_op d) ops t0.
 (* the orders are permutations of the column set at the time of the call *)
-Fixpoint ops_valid (d : N) (t : table) (ops : list top) : Prop :=
+Fixpoint ops_valid (d : bytes) (t : table) (ops : list top) : Prop :=
   match ops with
   | [] => True
   | o :: r => (match o with
@@ -321,7 +343,7 @@ Fixpoint ops_valid (d : N) (t : table) (ops : list top) : Prop :=
                | TTrim _ order => Permutation order (map fst (t_cols t))
                end) /\ ops_valid d (t_op d t o) r
   end.
-Definition cs_op (d : N) (st : cellmap * N) (o : top) : cellmap * N :=
+Definition cs_op (d : bytes) (st : cellmap * N) (o : top) : cellmap * N :=
   match o with
   | TSample e => match parse3 d e with
                  | Some (c, r, v) => (cs_sample_item (fst st) c r v, snd st)
@@ -329,10 +351,10 @@ Definition cs_op (d : N) (st : cellmap * N) (o : top) : cellmap * N :=
                  end
   | TTrim pred _ => (cs_trim pred (fst st), snd st)
   end.
-Definition cs_ops (d : N) (ops : list top) : cellmap * N := fold_left (cs_op d) ops ([], 0%N).
+Definition cs_ops (d : bytes) (ops : list top) : cellmap * N := fold_left (cs_op d) ops ([], 0%N).
 
 (* the executable model of the correspondence visits the columns in key order (C07_table_order_irrelevant) *)
-Definition t_opm (d : N) (t : table) (o : top) : table :=
+Definition t_opm (d : bytes) (t : table) (o : top) : table :=
   match o with
   | TSample e => t_sample d t e
   | TTrim pred _ => trimf pred t
